@@ -146,7 +146,17 @@ def havoc_unknown_locals(e, heads, unknown, tag):
                 elif sh[0] == "int":
                     _set_any_frame(h2, n, z3.Int(f"{n}!{tag}"))
                 else:
-                    _set_any_frame(h2, n, Opaque(n))
+                    # unknown shape: if the local currently holds a symbolic number / truth value (e.g. a copy of an attribute the
+                    # model keeps as one), any value of that sort; otherwise an opaque value
+                    cur = next((f[n] for f in reversed(h2.frames) if n in f), None)
+                    if is_sym(cur) and z3.is_int(cur):
+                        _set_any_frame(h2, n, z3.Int(f"{n}!{tag}"))
+                    elif is_sym(cur) and z3.is_bool(cur):
+                        _set_any_frame(h2, n, z3.Bool(f"{n}!{tag}"))
+                    elif is_sym(cur) and z3.is_real(cur):
+                        _set_any_frame(h2, n, z3.Real(f"{n}!{tag}"))
+                    else:
+                        _set_any_frame(h2, n, Opaque(n))
             out.append(h2)
     return out
 
